@@ -91,7 +91,11 @@ def dump_tree(obj: Any, seen: set[int], depth: int = 0) -> Any:
                 attrs.setdefault(s, getattr(obj, s))
     out = [type(obj).__name__]
     for k in sorted(attrs):
-        if k in ("env", "parent", "template", "source"):
+        if k in ("env", "source"):
+            continue
+        if k in ("parent", "template"):
+            # back references: not followed, but whether one is there (and of what class) is part of the template's state
+            out.append((k, "<" + type(attrs[k]).__name__ + ">"))
             continue
         out.append((k, dump_tree(attrs[k], seen, depth + 1)))
     seen.discard(id(obj))
@@ -323,7 +327,13 @@ def construct_of(src: str) -> str:
 def judge(ctx: core.Ctx, case: dict[str, Any]) -> None:
     if case["kind"] == "purity":
         data = V.dec(case["data"])
-        env = drv.make_env(case.get("env") or {})
+        ecfg = dict(case.get("env") or {})
+        ploader = None
+        if ecfg.get("templates"):
+            from liquid import DictLoader
+
+            ploader = DictLoader(dict(ecfg.pop("templates")))
+        env = drv.make_env(ecfg, loader=ploader)
         o = drv.parse(env, case["source"])
         if not o.ok:
             ctx.count("parse_error_skipped")
@@ -674,6 +684,20 @@ def gen_purity_case(rng) -> dict[str, Any]:
     return {"kind": "purity", "source": src, "data": V.enc(tpl.make_data(rng, hostile=0.05, drop=0.1)), "env": {"extra": extra, "mode": rng.choice(["strict", "lax"])}, "async": rng.random() < 0.2}
 
 
+def partial_purity_cases():
+    """Templates that load other templates while they render (extends chains, include, render, with arguments and in loops): rendering
+    leaves the parsed tree of the template as it was, and a second render gives the same text."""
+    tpls = {"base": "<base>{% block b %}B{{ x }}{% endblock %}|{% block c %}C{% endblock %}", "mid": "{% extends 'base' %}{% block b %}M{{ block.super }}{% endblock %}", "p": "[p {{ x }} {{ v }}]",
+            "q": "{% for i in (1..2) %}{{ i }}{{ x }}{% endfor %}"}
+    sources = ["{% extends 'base' %}{% block b %}L{{ x }}{% endblock %}", "{% extends 'mid' %}{% block c %}LC{{ block.super }}{% endblock %}", "{% extends 'mid' %}", "{% if x %}{% extends 'base' %}{% endif %}",
+               "{% include 'p' %}{% include 'p', v: x %}", "{% render 'p', v: x %}{% render 'q' %}", "{% for i in (1..2) %}{% render 'p', v: i %}{% include 'q' %}{% endfor %}", "{% include 'mid' %}after",
+               "{% render 'p' for xs as v %}{% include 'p' for xs as v %}", "{% assign n = 'p' %}{% include n %}{% capture c %}{% render 'q' %}{% endcapture %}{{ c | size }}"]
+    for si, src in enumerate(sources):
+        for mode in ("strict", "lax"):
+            for is_async in (False, True):
+                yield {"kind": "purity", "source": src, "data": V.enc({"x": si + 1, "xs": [1, 2]}), "env": {"extra": True, "mode": mode, "templates": tpls}, "async": is_async}
+
+
 def held_template_cases():
     """An application keeps a template object it got from a caching loader (with globals pinned to it) and renders it again after other
     templates - which include / render / extend the same name - were rendered in the same environment."""
@@ -754,6 +778,9 @@ def cases(ctx: core.Ctx):
             yield c
     for gi, c in enumerate(held_template_cases()):
         if gi % ctx.nshards == ctx.shard and (ctx.tier != "quick" or gi % 2 == 0):
+            yield c
+    for gi, c in enumerate(partial_purity_cases()):
+        if gi % ctx.nshards == ctx.shard:
             yield c
     if ctx.shard == 0:
         yield from batch_cases()
